@@ -41,5 +41,9 @@ for ID, m in info["changes"].items():
         out["strengthened"] = m["strengthened"]
     if m.get("note"):
         out["note"] = m["note"]
+    if m.get("table_note"):
+        out["table_note"] = m["table_note"]
+    if m.get("not_caught"):
+        out["not_caught"] = True
     json.dump(out, open(f"{d}/meta.json", "w"), indent=1, ensure_ascii=False)
     print(ID, {p: (c["exit_code"], c["violations"]) for p, c in caught.items()})
